@@ -64,7 +64,8 @@ type Ctx struct {
 	inlineHelpers bool
 	ftMemo        map[*types.Named][]*ssa.Function
 	faMemo        map[*ssa.Parameter][]*ssa.Function
-	extraCut      map[edge]bool // edges excluded for the current top-level guard query (a case split on a φ)
+	extraCut      map[edge]bool          // edges excluded for the current top-level guard query (a case split on a φ)
+	mutGlobals    map[*ssa.Global]string // statelessRule: module globals that change after initialisation, with the reason
 	condDepth     int
 	fnArgs        map[string]fnArg            // calleeEnvV: functions handed to callees as arguments, by the name they carry in the callee env
 	condEnv       Env                         // canonCond: the frame conditions are rendered in (nil: the function's own)
